@@ -251,7 +251,11 @@ func BuildSeeds(repo string, namespace string) *Seeds {
 	for _, name := range []string{"ed-root", "ed-leaf", "p256-leaf", "rsa-leaf", "kitchen", "kitchen-uid"} {
 		var der []byte
 		if name == "kitchen-uid" {
-			der = s.ByKind["cert"][len(s.ByKind["cert"])-1].Data
+			for _, sd := range s.ByKind["cert"] {
+				if sd.Name == "kitchen-uid" {
+					der = sd.Data
+				}
+			}
 		} else {
 			der = certs[name]
 		}
